@@ -182,6 +182,17 @@ def build(case):
             e = np.concatenate([e, np.array(newe, dtype=int)])
             c = np.concatenate([c, np.array(newc, dtype=int)])
         return p, e, c
+    if f == "island":               # one plaquette cut free from the rest: a contractible island component with a cycle inside a
+        p, e, c = build(case["base"])      # lattice that is still periodic; the walk round the OUTSIDE of the island is clockwise, not a plaquette
+        rng = np.random.default_rng([case["seed"], len(e), 19])
+        pls = Lattice(p, e, c).plaquettes
+        if len(pls) < 3:
+            return p, e, c
+        F = pls[int(rng.integers(0, len(pls)))]
+        own = set(int(x) for x in F.edges)
+        vs = set(int(x) for x in F.vertices)
+        keep = np.array([i for i in range(len(e)) if i in own or not (int(e[i][0]) in vs or int(e[i][1]) in vs)], dtype=int)
+        return p, e[keep], c[keep]
     if f == "face_last":            # sweep-order adversary: one chosen plaquette F gets all its edges listed first and stored
         p, e, c = build(case["base"])      # against its direction of travel, so F can only be found by a backward search
         rng = np.random.default_rng([case["seed"], len(e), 13])
@@ -309,6 +320,10 @@ def lattice_cases(tier, seed, exhaustive=True):
         pc = {"family": "pendant", "base": b, "seed": int(rng.integers(0, 2**31)), "frac": float(rng.choice([0.5, 0.75, 0.9]))}
         cases.append({"family": "relabel", "base": pc, "seed": int(rng.integers(0, 2**31)), "flip": 0.5, "vertices": False})
         cases.append({"family": "face_last", "base": pc, "seed": int(rng.integers(0, 2**31))})
+    # islands: a plaquette cut free from a lattice that stays periodic (its outside walk must not be reported)
+    for i in range(min(len(pbase), 30 if tier == "quick" else 200)):
+        b = pbase[int(rng.integers(0, len(pbase)))]
+        cases.append({"family": "island", "base": b, "seed": int(rng.integers(0, 2**31))})
     # pinched faces: a valid plaquette that visits a vertex twice (vertex tables must list it once)
     for i in range(min(len(pbase), 40 if tier == "quick" else 300)):
         b = pbase[int(rng.integers(0, len(pbase)))]
